@@ -541,7 +541,7 @@ func (wd *World) sample(atRest bool) {
 // libCensus counts the live tasks created by library code, by creator.
 func (wd *World) libCensus() (pool, loops, reapers, listeners, other int) {
 	for _, t := range simrt.Tasks() {
-		if !t.Lib || t.IsExited() || simrt.IsFrozen(t) {
+		if !t.Lib || t.IsExited() || t.Frozen {
 			continue
 		}
 		switch t.Name {
